@@ -193,6 +193,14 @@ static void one_case(vh::Ctx & c, uint64_t idx)
   c.expect_le("roundtrip.lon_rad", circ_diff(gb.longitude, lon), 1e-9, "roundtrip_lon", params, witb);
   c.expect_le("roundtrip.alt_m", std::fabs(gb.altitude - h), 1e-3, "roundtrip_alt", params, witb);
 
+  // ---- result stability: a result the caller still holds (by const reference, which extends the
+  // lifetime of a returned temporary) must not change when the converter is used again
+  {
+    const auto & held = conv.toECEF(g);
+    const Eigen::Vector3d held_copy = held;
+    (void)conv.toECEF(romea::core::makeGeodeticCoordinates(-0.5 * lat, 0.25 * lon, 0.5 * h + 1.0));
+    c.expect("results_do_not_alias", (held - held_copy).norm() == 0 && (held - X).norm() == 0, "result_aliasing", params, wit);
+  }
   // ---- ECEF -> geodetic -> ECEF (on the library's own forward image)
   Eigen::Vector3d Xb = conv.toECEF(gb);
   c.expect_le("ecef_roundtrip_m", (Xb - X).norm(), 1e-3, "ecef_roundtrip", params, witb);
